@@ -53,12 +53,16 @@ impl Fragments {
             fragment_size + 1
         };
 
-        let number_of_fragments = (data.len() as f32 / fragment_size as f32).ceil() as u32;
+        let number_of_fragments = if fragment_size == 0 {
+            0
+        } else {
+            data.len().div_ceil(fragment_size as usize)
+        };
 
         // Calculate the encapsulated size. If necessary pad the vector with zeroes so all the
         // chunks have the same fragment_size
         let mut data = data;
-        let encapsulated_size = (fragment_size * number_of_fragments) as usize;
+        let encapsulated_size = fragment_size as usize * number_of_fragments;
         if encapsulated_size > data.len() {
             data.resize(encapsulated_size, 0);
         }
